@@ -148,6 +148,12 @@ func Rewriter(name string) func(*url.URL) {
 		return func(u *url.URL) { u.Host = h }
 	case name == "clearquery":
 		return func(u *url.URL) { u.RawQuery = "" }
+	case name == "relproxy":
+		// rewrites to a relative reference: something the policy itself may not accept from a user
+		return func(u *url.URL) {
+			old := u.String()
+			*u = url.URL{Path: "/media-proxy", RawQuery: "u=" + url.QueryEscape(old)}
+		}
 	case strings.HasPrefix(name, "proxy="):
 		h := name[6:]
 		return func(u *url.URL) {
